@@ -1127,6 +1127,7 @@ def extract_item(repo_root, rel, container, kind, name, opts, unit_rules, sectio
     sf = SourceFile.get(repo_root, rel)
     nth = int(opts['nth']) if 'nth' in opts else None
     log = []
+    sections_all = list(sections)
     if kind == 'region':
         # R18 region extraction: the block of the n-th match arm `ARM =>` inside function `name` is lifted into a
         # function whose header (parameters = the region's free variables) is given by the template (@header);
@@ -1237,7 +1238,9 @@ def extract_item(repo_root, rel, container, kind, name, opts, unit_rules, sectio
         text = splice(text, sections, where)
     elif sections:
         raise ExtractError('bad-template', '%s: sections on a non-fn item' % where)
+    contract = norm_ws(strip_comments('\n'.join(b for k, a, b in sections_all if k == 'sig')))
     meta = {
+        'contract': contract[:400],
         'item': '%s | %s | %s %s' % (rel, container.strip(), kind, name),
         'name': name, 'kind': kind, 'container': container.strip(), 'file': rel,
         'lines': [start_line, end_line],
@@ -1388,7 +1391,7 @@ def scan_trusted(text):
             kind = re.sub(r'\s+', ' ', m.group(1).strip('( ').strip())
             # describe: next non-empty line containing fn/struct
             desc = l.strip()
-            if 'fn ' not in desc and 'struct ' not in desc and '[' not in desc:
+            if kind.startswith('external_body') or kind.startswith('verifier::external') or ('fn ' not in desc and 'struct ' not in desc and '[' not in desc):
                 for j in range(i + 1, min(i + 6, len(lines))):
                     if re.search(r'\b(fn|struct|enum|trait)\b', lines[j]):
                         desc = lines[j].strip()
